@@ -186,6 +186,26 @@ def auto_array_let_edits(sf, lo, hi, ed, log, where, protected=()):
         i += 1
 
 
+def auto_ctor_fn_edits(sf, lo, hi, ed, log, where, protected=()):
+    """R7 (automatic): a tuple-variant constructor (or Some/Ok/Err) passed as a function value to map / map_err
+    is eta-expanded: `.map_err(E::V)` -> `.map_err(|e__| E::V(e__))`."""
+    toks = sf.toks
+    i = lo
+    while i < hi - 3:
+        if toks[i].kind == 'ident' and toks[i].text in ('map', 'map_err') and toks[i - 1].text == '.' and toks[i + 1].text == '(' \
+                and not any(a <= i < b for a, b in protected):
+            e = match_close(toks, i + 1)
+            inner = toks[i + 2:e]
+            ok = len(inner) >= 1 and all((t.kind == 'ident') or t.text == '::' for t in inner) and inner[-1].kind == 'ident' \
+                and inner[-1].text[:1].isupper() and (len(inner) >= 3 or inner[-1].text in ('Some', 'Ok', 'Err'))
+            if ok:
+                path = sf.text[inner[0].start:inner[-1].end]
+                ed.add(inner[0].start, inner[-1].end, '|e__| %s(e__)' % path)
+                log.rw('R7', where, '.%s(%s)' % (toks[i].text, path), '.%s(|e__| %s(e__))' % (toks[i].text, path))
+            i = e
+        i += 1
+
+
 def loop_sites(sf, lo, hi):
     """Token indices of the body `{` of each loop (while / for / loop) in [lo,hi), in source order."""
     toks = sf.toks
@@ -296,6 +316,7 @@ def weave_fn(sf, it, spec, log, where, canary=False):
     if spec is None:
         closure_underscore_edits(sf, it.body_lo, it.body_hi, ed, log, where, protected)
         auto_array_let_edits(sf, it.body_lo, it.body_hi, ed, log, where, protected)
+        auto_ctor_fn_edits(sf, it.body_lo, it.body_hi, ed, log, where, protected)
         return ed.render()
     # R10: alpha-renaming of a parameter (Verus rejects a contract on `fn f(.., f: T)`)
     for old_name, new_name in (spec.params or {}).items():
@@ -421,6 +442,7 @@ def weave_fn(sf, it, spec, log, where, canary=False):
                     log.rw('R9', where, 'closure body `%s`' % sf.text[nxt.start:toks[j - 1].end][:80], 'wrapped in a block to carry its contract')
     closure_underscore_edits(sf, it.body_lo, it.body_hi, ed, log, where, protected)
     auto_array_let_edits(sf, it.body_lo, it.body_hi, ed, log, where, protected)
+    auto_ctor_fn_edits(sf, it.body_lo, it.body_hi, ed, log, where, protected)
     # hints
     if spec.mode == 'verify':
         for hint in spec.hints:
